@@ -134,6 +134,25 @@ def run(ctx):
         for pol in ("replace", "combine"):
             cases.append({"kind": "series", "policy": pol, "recs": c["recs"], "expect": c["expect"][pol], "meta": cmeta, "big": big})
             orders += math.factorial(n) if n <= 4 else 40
+    # OPTION COMBINATION NumeratorHash == DenominatorHash (legal: cmd/benchseries "-numerator-hash ... (can be same as
+    # denominator-hash)"): every record names its own toolchain under ONE key, and the hash sets are chosen so that the
+    # numerator toolchain of one series point is the baseline of another (chained tip-vs-previous-tip, crossed, shared) or of
+    # none.  The model's expectation does not depend on how the hashes are spelled or keyed.  Sets with both roles and two
+    # series stamps, in every add order like the others.
+    cand = [c for c in sets if len({r["series"] for r in c["recs"]}) > 1 and {r["role"] for r in c["recs"]} == {"num", "den"}]
+    SK_MAX = 1500 if q else 3000
+    step = max(1, -(-len(cand) // SK_MAX))
+    nsk = 0
+    for k, c in enumerate(cand):
+        if (k + ctx.seed) % step:
+            continue
+        nsk += 1
+        for pol in ("replace", "combine"):
+            cases.append({"kind": "series", "policy": pol, "recs": c["recs"], "expect": c["expect"][pol], "meta": cmeta,
+                          "samekey": 1 + (nsk + (pol == "combine")) % 4})
+            n = len(c["recs"])
+            orders += math.factorial(n) if n <= 4 else 40
+    ctx.cov["sets_replayed_with_one_hash_key_for_both_roles"] = nsk
     ctx.cov["sets_replayed_with_large_cells"] = nbig
     ctx.cov["input_sets"] = len(sets)
     ctx.cov["add_orders_replayed"] = orders
